@@ -4,8 +4,9 @@
 (* disabled, re-enabled; rights replaced over time, including a right with  *)
 (* all-rows but not own-rows set; a second admin; user admins), spread over *)
 (* days, with a cut in the middle at which the room is exported once.       *)
+(* Updates can also be made by a second admin on its own instance.          *)
 EXTENDS Naturals, Sequences, TLC, Json
-CONSTANTS MaxLen, WithAttack
+CONSTANTS MaxLen, WithAttack, SecondActor
 VARIABLES hist, cut, done
 gvars == <<hist, cut, done>>
 R(e, s, a) == [ent |-> e, self |-> s, all |-> a]
@@ -24,7 +25,10 @@ Def == /\ hist = <<>>
                        groups |-> << [g |-> "g1", rights |-> r1, users |-> u1, uadmins |-> ua],
                                      [g |-> "g2", rights |-> r2, users |-> <<"u3">>, uadmins |-> <<>>] >>]>>
        /\ UNCHANGED <<cut, done>>
-Upd == hist # <<>> /\ ~done /\ \E m \in UpdMenu : hist' = Append(hist, m) /\ UNCHANGED <<cut, done>>
+\* with SecondActor the update is made either by the creator (p1) or by u3 on its own instance (p3): accepted there only while u3 is
+\* an admin (or a user admin of the group), and later read by everybody else after u3 may have lost that role
+Upd == hist # <<>> /\ ~done /\ \E m \in UpdMenu, p \in (IF SecondActor THEN {"p1", "p3"} ELSE {"p1"}) :
+          hist' = Append(hist, [m EXCEPT !.p = p]) /\ UNCHANGED <<cut, done>>
 Day == hist # <<>> /\ ~done /\ hist[Len(hist)].op # "day" /\ hist' = Append(hist, [op |-> "day"]) /\ UNCHANGED <<cut, done>>
 Cut == hist # <<>> /\ ~done /\ ~cut /\ cut' = TRUE /\ hist' = Append(hist, [op |-> "cut"]) /\ UNCHANGED done
 \* C07: the history ends with one adversarial candidate definition (then an honest one)
